@@ -29,8 +29,8 @@ LexLess(a, b) == IF a = <<>> THEN b # <<>>
                  ELSE CharRank(Head(a)) < CharRank(Head(b))
 SortedKeys(ks) == SortSeq(SetToSeq(ks), LexLess)
 
-IsAttrKey(eo, k) == eo.apfx # "" /\ Len(k) > 1 /\ Head(k) = eo.apfx        \* prefix is one character here
-AttrLocal(k) == Tail(k)
+IsAttrKey(eo, k) == LET P == Cs1(eo.apfx) IN eo.apfx # "" /\ Len(k) > Len(P) /\ SubSeq(k, 1, Len(P)) = P      \* longer than the prefix it begins with
+AttrLocalE(eo, k) == SubSeq(k, Len(Cs1(eo.apfx)) + 1, Len(k))
 ScalarText(v) == IF v.t = "n" THEN <<>> ELSE v.v                            \* %v rendering: the token itself
 \* with encoder-side escaping off the bytes written are the value itself; what a parser reads back
 LogicalText(eo, cs) == IF eo.esc THEN cs ELSE XmlUnescape(cs)
@@ -48,7 +48,7 @@ EncodeVal(key, v, eo) ==
          tk   == TextKey(eo)
          eks  == SortedKeys({k \in ks : ~IsAttrKey(eo, k) /\ k # tk})
          bad  == \E k \in ks : IsAttrKey(eo, k) /\ (IsMap(v.kv[k]) \/ IsList(v.kv[k]) \/ v.kv[k].t = "n")
-         attrs == [i \in 1..Len(aks) |-> [nm |-> NM("", AttrLocal(aks[i])), v |-> ScalarText(v.kv[aks[i]])]]
+         attrs == [i \in 1..Len(aks) |-> [nm |-> NM("", AttrLocalE(eo, aks[i])), v |-> ScalarText(v.kv[aks[i]])]]
          kids == FlatSeq([i \in 1..Len(eks) |-> EncodeVal(eks[i], v.kv[eks[i]], eo)])
          txt  == IF tk \in ks THEN <<XT(ScalarText(v.kv[tk]))>> ELSE <<>>      \* leading text (may be an empty run)
      IN IF bad \/ HasErr(kids) THEN <<ErrNode>>
